@@ -239,6 +239,59 @@ func applyMutation(cs c06Case, m *c06Msg, t int, r *vf.Rand, other *c06Msg, othe
 	case "extend":
 		b, _ := jb64.DecodeString(*m.seg(cs.Seg, t))
 		m.setSeg(cs.Seg, t, jEnc(append(b, r.Bytes(1+cs.Val%16)...)))
+	case "forge-cek":
+		// an attacker who does NOT know the recipient's key builds iv / ciphertext / tag under a CEK of its own choice
+		// (all zero, all 0xff, 1 2 3 …) over the message's own authenticated header, and replaces the Encrypted Key by
+		// garbage (or keeps it).  No honest unwrap yields that CEK, so nothing may be returned: an unwrap that falls
+		// back to a fixed or zero key on failure ("Bleichenbacher hardening" done wrong) is wrong exactly here.
+		alg := append([]string{base.Alg}, base.Extra...)[t]
+		if alg == "dir" || alg == "ECDH-ES" || base.Zip {
+			return false
+		}
+		encs := []string{"A128CBC-HS256", "A192CBC-HS384", "A256CBC-HS512", "A128GCM", "A192GCM", "A256GCM"}
+		ei := -1
+		for i, n := range encs {
+			if n == base.Enc {
+				ei = i
+			}
+		}
+		if ei < 0 {
+			return false
+		}
+		klen := []int{32, 48, 64, 16, 24, 32}[ei]
+		cek := make([]byte, klen)
+		switch cs.Val % 3 {
+		case 1:
+			for i := range cek {
+				cek[i] = 0xff
+			}
+		case 2:
+			for i := range cek {
+				cek[i] = byte(i + 1)
+			}
+		}
+		aad := m.Text["protected"]
+		if m.Text["aad"] != "" {
+			aad += "." + m.Text["aad"]
+		}
+		iv, _ := jb64.DecodeString(m.Text["iv"])
+		pt := append([]byte("forged:"), r.Bytes(1+r.Intn(40))...)
+		var ct, tag []byte
+		var ok bool
+		if ei < 3 {
+			ct, tag, ok = refCBCEncrypt(ei, cek, iv, []byte(aad), pt)
+		} else {
+			ct, tag, ok = refGCMSeal(klen, cek, iv, []byte(aad), pt)
+		}
+		if !ok {
+			return false
+		}
+		m.setSeg("ciphertext", t, jEnc(ct))
+		m.setSeg("tag", t, jEnc(tag))
+		if (cs.Val/3)%2 == 0 {
+			ek, _ := jb64.DecodeString(m.EK[t])
+			m.setSeg("encrypted_key", t, jEnc(r.Bytes(len(ek))))
+		}
 	case "swap":
 		if other == nil {
 			return false
@@ -688,6 +741,16 @@ var c06HistOps = []string{"dec-right", "dec-wrong-same", "dec-wrong-size", "dec-
 func c06WrongKey(e *c05Env, alg, enc string, t, variant int, r *vf.Rand) *jKey {
 	own := e.keys[fmt.Sprintf("k%d", t)]
 	var wk *jKey
+	if own.Oct != nil && variant%4 == 3 {
+		// a TEXT-NORMALISED relative of the recipient's octet key (BOM stripped, white space trimmed, a line feed or
+		// a space added): a different key, however similar it looks as text
+		for _, cand := range [][]byte{bytes.TrimPrefix(own.Oct, []byte{0xef, 0xbb, 0xbf}), bytes.TrimSpace(own.Oct),
+			append(append([]byte{}, own.Oct...), '\n'), append([]byte{' '}, own.Oct...)} {
+			if len(cand) > 0 && !bytes.Equal(bytes.TrimRight(cand, "\x00"), bytes.TrimRight(own.Oct, "\x00")) {
+				return &jKey{Oct: append([]byte{}, cand...)}
+			}
+		}
+	}
 	switch variant % 3 {
 	case 0:
 		wk = c05MakeKey(alg, enc, "wrong", r, 1)
@@ -1355,6 +1418,9 @@ func genC06(r *vf.Rand, base c05Case) c06Case {
 		cs.Op = vf.Pick(r, []string{"set", "set", "del", "move"})
 	case 11:
 		cs.Mut = "key"
+		if r.Intn(3) == 0 {
+			cs.Mut = "forge-cek"
+		}
 	}
 	if r.Intn(8) == 0 {
 		cs = c06Case{Base: base, Seed2: cs.Seed2, Val: r.Intn(1 << 16), Mut: "place", Op: vf.Pick(r, c06PlaceOps)}
